@@ -324,6 +324,13 @@ TEMPLATES = [
     ("print", ("Print", "~ ~ ~", [m(1), m(2), m(3)]), [], [{}]),
     ("call-function", call("f", m(1), m(2)), [("Function", "f", ["a", "b"], ("Block", [m(3), get("b")]))], [{}]),
     ("call-method", mcall(m(1), "+", m(2)), [], [{1: [1], 2: [2]}]),
+    # every operator spelling the parser produces, both operands effectful (operator-specific rewrites must keep the order)
+    ("operators-arithmetic", ("Block", [mcall(m(1), "+", m(2)), mcall(m(3), "-", m(4)), mcall(m(5), "*", m(6)), mcall(m(7), "/", m(8)), mcall(m(9), "%", m(10))]), [],
+     [{k: [k + 1] for k in range(1, 11)}]),
+    ("operators-comparison", ("Block", [mcall(m(1), "<", m(2)), mcall(m(3), "<=", m(4)), mcall(m(5), ">", m(6)), mcall(m(7), ">=", m(8)), mcall(m(9), "==", m(10)), mcall(m(11), "!=", m(12))]), [],
+     [{k: [k] for k in range(1, 13)}]),
+    ("operators-logical", ("Block", [mcall(m(1), "&", m(2)), mcall(m(3), "|", m(4)), mcall(m(5), "==", m(6)), mcall(m(7), "!=", m(8))]), [],
+     [{k: [k % 2 == 0] for k in range(1, 9)}]),
     ("call-method-3", mcall(m(1), "set", m(2), m(3)), [], [{1: [fresh_array], 2: [1], 3: [9]}]),
     ("access-array", ("AccessArray", m(1), m(2)), [], [{1: [fresh_array], 2: [2]}]),
     ("assign-array", ("AssignArray", m(1), m(2), m(3)), [], [{1: [fresh_array], 2: [0], 3: [5]}]),
@@ -341,6 +348,7 @@ TEMPLATES = [
     # scoping observed at run time (C12): what a variable read yields is printed
     ("scope-shadow", ("Block", [var("x", I("?a")), ("Block", [var("x", I("?b")), P(get("x"))]), P(get("x"))]), [], [{}]),
     ("scope-siblings", ("Block", [("Block", [var("x", I("?a")), P(get("x"))]), ("Block", [var("x", I("?b")), P(get("x"))]), ("Block", [var("y", I(3)), P(get("y"))])]), [], [{}]),
+    ("scope-dead-sibling", ("Block", [("Block", [var("x", I("?a")), P(get("x"))]), ("Block", [P(get("x")), assign("x", I("?b")), P(get("x"))]), P(get("x"))]), [var("x", I("?g"))], [{}]),
     ("scope-assign-outer", ("Block", [var("x", I("?a")), ("Block", [assign("x", I("?b")), var("x", I(7)), assign("x", I(8)), P(get("x"))]), P(get("x"))]), [], [{}]),
     ("scope-function-isolation", ("Block", [var("l", I("?a")), call("f", I("?b")), P(get("l"))]),
      [var("g", I(1)), ("Function", "f", ["a"], ("Block", [var("l", get("a")), P(get("g"), get("l"))]))], [{}]),
@@ -563,6 +571,126 @@ def substitute_model(x, model):
     return x
 
 
+def check_template(k):
+    """One template in its four contexts (run in a worker process; z3 objects do not cross process boundaries, so everything
+    returned is plain data)."""
+    import fmlref
+    bodies, enums, structs, which = SHARED["bodies"], SHARED["enums"], SHARED["structs"], SHARED["which"]
+    name, expr, prelude, choice_list = TEMPLATES[k]
+    res = {"queries": 0, "discharged": 0, "violations": [], "inconclusive": [], "samples": [], "paths": 0, "solver_s": 0.0, "programs": 0,
+           "reference_runs": 0, "native_agreements": 0}
+    for wname, prog in wrap(expr, prelude):
+        label = "%s/%s" % (name, wname)
+        try:
+            ex, b, outs, cells = run_template(bodies, enums, structs, prog, "top", keep=True)
+        except (mirx.Unsupported, KeyError, AttributeError, TypeError, IndexError, z3.Z3Exception) as e:
+            res["inconclusive"].append("%s: MIR construct outside the executor: %r" % (label, e))
+            continue
+        res["programs"] += 1
+        res["queries"] += ex.queries
+        res["solver_s"] += ex.solver_seconds
+        if ex.unmodelled:
+            res["inconclusive"].append("%s: unmodelled calls %s" % (label, sorted(ex.unmodelled)[:4]))
+            continue
+        # the enumerated paths must cover every value of the symbolic leaves
+        s = z3.Solver()
+        s.add(z3.Not(z3.Or([z3.And(o.pc) if o.pc else z3.BoolVal(True) for o in outs])))
+        t1 = time.time()
+        cover = s.check()
+        res["solver_s"] += time.time() - t1
+        res["queries"] += 1
+        if cover != z3.unsat:
+            res["inconclusive"].append("%s: enumerated paths do not cover the inputs (%s)" % (label, cover))
+            continue
+        res["discharged"] += 1
+        for o in outs:
+            res["paths"] += 1
+            s = z3.Solver()
+            s.add(*o.pc)
+            res["queries"] += 1
+            if s.check() != z3.sat:
+                continue
+            model = s.model()
+            ast = concretise(prog, model, b.syms)
+            if o.kind != "return" or not (isinstance(o.value, Enum) and o.value.disc == 0):
+                res["inconclusive"].append("%s: the compiler fails or panics on a path (%s %s)" % (label, o.kind, o.msg))
+                continue
+            try:
+                out = read_output(o, cells, enums, structs)
+            except (mirx.Unsupported, KeyError, AttributeError, TypeError, IndexError) as e:
+                res["inconclusive"].append("%s: output not readable: %r" % (label, e))
+                continue
+            if out["buffer"]:
+                res["inconclusive"].append("%s: instructions left outside every method" % label)
+                continue
+            program = program_of(out)
+            # W and S hold for every value on the path: they only read the shape (instruction kinds, indices), which is concrete;
+            # symbolic literal values sit in the pool as terms and take no part
+            shape = dict(program, pool=[c if symbolic_free(c) else (c[0], 0) for c in program["pool"]])
+            findings = []
+            if which in ("all", "C02"):
+                findings += [("W", x) for x in fmlref.well_formed(shape)] + [("S", x) for x in fmlref.stack_discipline(shape)]
+            concrete = substitute_model(program, model)
+            if which in ("all", "C13", "C12"):
+                for choices in choice_list:
+                    want, verdict = fmlref.eval_ast(ast, choices)
+                    if verdict != "ok":
+                        res["inconclusive"].append("%s: the reference evaluator stops (%s) on choices %r" % (label, verdict, choices))
+                        continue
+                    got, gverdict = fmlref.run_code(concrete, choices)
+                    res["reference_runs"] += 1
+                    if (got, gverdict) != (want, "ok"):
+                        findings.append(("O", "run-time choices %s: the language definition gives the trace %s, the emitted code gives %s (%s)"
+                                         % ({k: [("fresh value" if callable(x) else x) for x in v] for k, v in choices.items()}, want, got, gverdict)))
+            if not findings:
+                res["discharged"] += 1
+                if len(res["samples"]) < 4:
+                    res["samples"].append({"program": label, "path": [str(z3.simplify(c)) for c in o.pc if not z3.is_true(z3.simplify(c))][:4],
+                                           "instructions": len(program["code"]), "constants": len(program["pool"])})
+                continue
+            # replay: the real compiler on the concrete AST must give a program with the same defect
+            real, err = native_compile(ast)
+            for kind, what in findings:
+                reproduced = False
+                if real is not None:
+                    if kind == "W":
+                        reproduced = what in fmlref.well_formed(real)
+                    elif kind == "S":
+                        reproduced = what in fmlref.stack_discipline(real)
+                    else:
+                        for choices in choice_list:
+                            want, verdict = fmlref.eval_ast(ast, choices)
+                            if verdict == "ok" and fmlref.run_code(real, choices) != (want, "ok"):
+                                reproduced = True
+                rec = {"id": "%s-%s-%d" % (label.replace("/", "-"), kind, len(res["violations"])), "what": "%s [%s] %s" % (label, kind, what),
+                       "reproduced": reproduced, "ast": to_json(ast),
+                       "replay_cmd": "python3-vt smt/c02_compile.py --replay %s '%s'" % (name, json.dumps(to_json(ast))),
+                       "observed": err or "see listing"}
+                if reproduced:
+                    res["violations"].append(rec)
+                else:
+                    res["inconclusive"].append("%s [%s] %s — not reproduced on the natively compiled program (%s)" % (label, kind, what, err))
+        # engine validation: the natively compiled program equals the path's program on one model per path
+        for o in outs[:2]:
+            if o.kind != "return":
+                continue
+            s = z3.Solver()
+            s.add(*o.pc)
+            if s.check() != z3.sat:
+                continue
+            model = s.model()
+            real, err = native_compile(concretise(prog, model, b.syms))
+            mine = substitute_model(program_of(read_output(o, cells, enums, structs)), model)
+            if real is not None and real["code"] == [tuple(x) for x in mine["code"]] and len(real["pool"]) == len(mine["pool"]):
+                res["native_agreements"] += 1
+            else:
+                res["inconclusive"].append("%s: the MIR executor's output differs from the natively compiled program (%s)" % (label, err))
+    return res
+
+
+SHARED = {}
+
+
 def main():
     import fmlref
     t0 = time.time()
@@ -580,113 +708,18 @@ def main():
         res["inconclusive"].append("MIR dump / parse failed: %s" % str(e)[-600:])
         print(json.dumps(res))
         return
-    for name, expr, prelude, choice_list in TEMPLATES:
-        for wname, prog in wrap(expr, prelude):
-            label = "%s/%s" % (name, wname)
-            try:
-                ex, b, outs, cells = run_template(bodies, enums, structs, prog, "top", keep=True)
-            except (mirx.Unsupported, KeyError, AttributeError, TypeError, IndexError, z3.Z3Exception) as e:
-                res["inconclusive"].append("%s: MIR construct outside the executor: %r" % (label, e))
-                continue
-            res["programs"] += 1
-            res["queries"] += ex.queries
-            res["solver_s"] += ex.solver_seconds
-            if ex.unmodelled:
-                res["inconclusive"].append("%s: unmodelled calls %s" % (label, sorted(ex.unmodelled)[:4]))
-                continue
-            # the enumerated paths must cover every value of the symbolic leaves
-            s = z3.Solver()
-            s.add(z3.Not(z3.Or([z3.And(o.pc) if o.pc else z3.BoolVal(True) for o in outs])))
-            t1 = time.time()
-            cover = s.check()
-            res["solver_s"] += time.time() - t1
-            res["queries"] += 1
-            if cover != z3.unsat:
-                res["inconclusive"].append("%s: enumerated paths do not cover the inputs (%s)" % (label, cover))
-                continue
-            res["discharged"] += 1
-            for o in outs:
-                res["paths"] += 1
-                s = z3.Solver()
-                s.add(*o.pc)
-                res["queries"] += 1
-                if s.check() != z3.sat:
-                    continue
-                model = s.model()
-                ast = concretise(prog, model, b.syms)
-                if o.kind != "return" or not (isinstance(o.value, Enum) and o.value.disc == 0):
-                    res["inconclusive"].append("%s: the compiler fails or panics on a path (%s %s)" % (label, o.kind, o.msg))
-                    continue
-                try:
-                    out = read_output(o, cells, enums, structs)
-                except (mirx.Unsupported, KeyError, AttributeError, TypeError, IndexError) as e:
-                    res["inconclusive"].append("%s: output not readable: %r" % (label, e))
-                    continue
-                if out["buffer"]:
-                    res["inconclusive"].append("%s: instructions left outside every method" % label)
-                    continue
-                program = program_of(out)
-                # W and S hold for every value on the path: they only read the shape (instruction kinds, indices), which is concrete;
-                # symbolic literal values sit in the pool as terms and take no part
-                shape = dict(program, pool=[c if symbolic_free(c) else (c[0], 0) for c in program["pool"]])
-                findings = []
-                if which in ("all", "C02"):
-                    findings += [("W", x) for x in fmlref.well_formed(shape)] + [("S", x) for x in fmlref.stack_discipline(shape)]
-                concrete = substitute_model(program, model)
-                if which in ("all", "C13", "C12"):
-                    for choices in choice_list:
-                        want, verdict = fmlref.eval_ast(ast, choices)
-                        if verdict != "ok":
-                            res["inconclusive"].append("%s: the reference evaluator stops (%s) on choices %r" % (label, verdict, choices))
-                            continue
-                        got, gverdict = fmlref.run_code(concrete, choices)
-                        res["reference_runs"] += 1
-                        if (got, gverdict) != (want, "ok"):
-                            findings.append(("O", "run-time choices %s: the language definition gives the trace %s, the emitted code gives %s (%s)"
-                                             % ({k: [("fresh value" if callable(x) else x) for x in v] for k, v in choices.items()}, want, got, gverdict)))
-                if not findings:
-                    res["discharged"] += 1
-                    if len(res["samples"]) < 4:
-                        res["samples"].append({"program": label, "path": [str(z3.simplify(c)) for c in o.pc if not z3.is_true(z3.simplify(c))][:4],
-                                               "instructions": len(program["code"]), "constants": len(program["pool"])})
-                    continue
-                # replay: the real compiler on the concrete AST must give a program with the same defect
-                real, err = native_compile(ast)
-                for kind, what in findings:
-                    reproduced = False
-                    if real is not None:
-                        if kind == "W":
-                            reproduced = what in fmlref.well_formed(real)
-                        elif kind == "S":
-                            reproduced = what in fmlref.stack_discipline(real)
-                        else:
-                            for choices in choice_list:
-                                want, verdict = fmlref.eval_ast(ast, choices)
-                                if verdict == "ok" and fmlref.run_code(real, choices) != (want, "ok"):
-                                    reproduced = True
-                    rec = {"id": "%s-%s-%d" % (label.replace("/", "-"), kind, len(res["violations"])), "what": "%s [%s] %s" % (label, kind, what),
-                           "reproduced": reproduced, "ast": to_json(ast),
-                           "replay_cmd": "python3-vt smt/c02_compile.py --replay %s '%s'" % (name, json.dumps(to_json(ast))),
-                           "observed": err or "see listing"}
-                    if reproduced:
-                        res["violations"].append(rec)
-                    else:
-                        res["inconclusive"].append("%s [%s] %s — not reproduced on the natively compiled program (%s)" % (label, kind, what, err))
-            # engine validation: the natively compiled program equals the path's program on one model per path
-            for o in outs[:2]:
-                if o.kind != "return":
-                    continue
-                s = z3.Solver()
-                s.add(*o.pc)
-                if s.check() != z3.sat:
-                    continue
-                model = s.model()
-                real, err = native_compile(concretise(prog, model, b.syms))
-                mine = substitute_model(program_of(read_output(o, cells, enums, structs)), model)
-                if real is not None and real["code"] == [tuple(x) for x in mine["code"]] and len(real["pool"]) == len(mine["pool"]):
-                    res["native_agreements"] += 1
-                else:
-                    res["inconclusive"].append("%s: the MIR executor's output differs from the natively compiled program (%s)" % (label, err))
+    SHARED.update(bodies=bodies, enums=enums, structs=structs, which=which)
+    native_compile(("Top", [NULL]))   # builds the replay binary once, before the workers fork
+    import multiprocessing
+    jobs = int(os.environ.get("VERIF_JOBS", "8"))
+    with multiprocessing.get_context("fork").Pool(min(jobs, len(TEMPLATES))) as pool:
+        parts = pool.map(check_template, range(len(TEMPLATES)), chunksize=1)
+    for part in parts:
+        for key in ("queries", "discharged", "paths", "solver_s", "programs", "reference_runs", "native_agreements"):
+            res[key] += part[key]
+        res["violations"] += part["violations"]
+        res["inconclusive"] += part["inconclusive"]
+        res["samples"] = (res["samples"] + part["samples"])[:4]
     res["nontrivial"] = res["discharged"]
     res["solver_s"] = round(res["solver_s"], 2)
     res["wall_s"] = round(time.time() - t0, 1)
